@@ -549,6 +549,47 @@ def build_pymodule(c):
     return mod
 
 
+def py_direct_compare(prefix):
+    """Python's t / y against the Rust run's t / y for every solve case of the X-py stream (files <prefix>.ops / .impl / .cases)"""
+    out = {"cases": 0, "bad": []}
+    try:
+        ops = open(prefix + ".ops").read().split("\n")
+        impl = open(prefix + ".impl").read().split("\n")
+        cases = [json.loads(l) for l in open(prefix + ".cases") if l.strip()]
+    except OSError:
+        return out
+    solve_cases = [k for k in cases if k.get("type") == "solve"]
+    k = -1
+    for i, op in enumerate(ops):
+        head = op.split(" ", 1)[0]
+        if head in ("res", "err", "panic"):
+            k += 1
+        if head != "res" or i >= len(impl) or not impl[i].startswith("py "):
+            continue
+        out["cases"] += 1
+        fr = dict(w.split("=", 1) for w in op.split(" ")[1:] if "=" in w)
+        fp = dict(w.split("=", 1) for w in impl[i].split(" ")[1:] if "=" in w)
+        if "t" not in fr or "t" not in fp:
+            continue
+        why = ""
+        if fr["t"] != fp["t"]:
+            why = "Python returns %d sample times, the Rust run %d; first difference at index %d" % (
+                len(fp["t"].split(",")), len(fr["t"].split(",")),
+                next((j for j, (a, b) in enumerate(zip(fr["t"].split(","), fp["t"].split(","))) if a != b), min(len(fr["t"].split(",")), len(fp["t"].split(",")))))
+        elif "y" in fr and "y" in fp and fr["t"] != "-":
+            rows_r = [r.split(",") for r in fr["y"].split(";")]
+            m = len(rows_r)
+            n = len(rows_r[0]) if m else 0
+            flat = fp["y"].split(",")
+            if len(flat) != n * m or any(flat[c * m + j] != rows_r[j][c] for j in range(m) for c in range(n)):
+                why = "Python's y is not the transposed y of the Rust run"
+        if why:
+            case = solve_cases[k] if 0 <= k < len(solve_cases) else {}
+            out["bad"].append({"finding_key": "c20-python-vs-rust", "why": why, "line": i + 1, "case": case,
+                               "rerun": "harness xpy <seed> <cases> <prefix>; python3-vt bin/py_cosim.py <prefix> .work/pymod"})
+    return out
+
+
 def c20(c):
     common_proof(c, "IvpModel.Props.C20", C20_THEOREMS)
     if c.build_harness() and c.build_driver():
@@ -569,6 +610,13 @@ def c20(c):
             if os.path.exists(os.path.join(VERIF, ".work", "C20_xpy.impl")):
                 os.remove(os.path.join(VERIF, ".work", "C20_xpy.impl"))
             c.stream("xpy", ["xpy", c.seed, 400 if c.tier == "quick" else 8000], "py", between=python_side)
+            # search for a failing input: the numbers Python returned against the numbers of the Rust run, case by case
+            # (the property itself — no model involved)
+            direct = py_direct_compare(os.path.join(VERIF, ".work", "C20_xpy"))
+            c.monitors["python_vs_rust_direct"] = {"cases": direct["cases"], "differences": len(direct["bad"]),
+                                                   "checks": "t and y (transposed) returned by ivp.solve_ivp equal, bit for bit, the t and y of the Rust solve_ivp on the same case"}
+            for b in direct["bad"][:1]:
+                c.violation("implementation-vs-oracle", "python_vs_rust_direct: %s" % b["why"], b, True)
             bad = [r for r in rows if r.get("ok") is False]
             hist = {}
             for r in rows:
